@@ -158,12 +158,16 @@ type c13Engines struct {
 }
 
 func (e *c13Engines) close() {
+	seen := map[*filterlist.RuleStorage]bool{}
 	for _, s := range e.storage {
-		_ = s.Close()
+		if !seen[s] {
+			seen[s] = true
+			_ = s.Close()
+		}
 	}
 }
 
-func c13Build(content string, file string) *c13Engines {
+func c13Build(content string, file string, shared bool) *c13Engines {
 	mk := func() *filterlist.RuleStorage {
 		if file != "" {
 			fl, err := filterlist.NewFileRuleList(1, file, false)
@@ -181,7 +185,13 @@ func c13Build(content string, file string) *c13Engines {
 		return util.Storage(content)
 	}
 	e := &c13Engines{}
-	s1, s2, s3 := mk(), mk(), mk()
+	s1 := mk()
+	s2, s3 := s1, s1
+	if !shared {
+		s2, s3 = mk(), mk()
+	}
+	// With shared=true all three engines sit on ONE storage, so the rule
+	// cache and the lazily compiled rule objects are shared between them.
 	e.storage = []*filterlist.RuleStorage{s1, s2, s3}
 	e.dns = urlfilter.NewDNSEngine(s1)
 	e.eng = urlfilter.NewEngine(s2)
@@ -267,14 +277,18 @@ func c13Run(c *core.Ctx, idx int) {
 		pool = append(pool, c13Op{Kind: "cosmetic", Host: c15Hostnames[c.Rng.Intn(len(c15Hostnames))], Flag: c.Rng.Intn(8)})
 	}
 
-	under := c13Build(content, file)
+	shared := c.Rng.Intn(2) == 0
+	if shared {
+		c.Event("histories_with_one_shared_storage", 1)
+	}
+	under := c13Build(content, file, shared)
 	defer under.close()
 	fresh := map[string]string{}
 	freshAnswer := func(o c13Op) string {
 		if v, ok := fresh[o.key()]; ok {
 			return v
 		}
-		e := c13Build(content, file)
+		e := c13Build(content, file, false)
 		defer e.close()
 		s, _, _, _, _ := c13Exec(e, o, -1)
 		fresh[o.key()] = s
